@@ -261,7 +261,7 @@ def stack_worker(spec):
         inputs = []
         for _ in range(spec['n_inputs']):
             s = gg.random_sentence(g, rnd, target=rnd.choice([2, 5, 10, 20, 30]), minlen=m)
-            if s is not None and len(s) <= 60: inputs.append(b''.join(g.terms[t].text.encode('latin-1') for t in s))
+            if s is not None and len(s) <= 60 and spec['n_inputs']: inputs.append(b''.join(g.terms[t].text.encode('latin-1') for t in s))
         inputs += [bytes.fromhex(h) for h in spec.get('extra_inputs', [])]
         # boundary: dense short texts (accepted or not) whose parse needs exactly the documented capacity N + E + 1, or one entry less
         nb = 0
@@ -282,7 +282,7 @@ def stack_worker(spec):
             lit = eg.cstr(d.decode('latin-1'))
             calls.append('  { int a = one(cstring_buffer(%s)); int b = one(string_buffer(std::string(%s, %d))); std::printf("S %d %%d %%d\\n", a, b); }' % (lit, lit, len(d), k))
         src = STACK_TMPL % {'decl': eg.emit_one(g, 0), 'calls': '\n'.join(calls)}
-        exe, _ = eg.build_tu(src, 'asan0', extra=eg.mode_defines([0]), name='stacks')
+        exe, _ = eg.build_tu(src, 'asan0', extra=eg.mode_defines([0]) + (['-fbracket-depth=8192'] if spec.get('long_literals') else []), name='stacks')      # (clang's fold-expression limit is a compiler knob)
         rc, so, se, to = common.run(exe, timeout=300)
         text = so.decode('latin-1')
         if 'END' not in text:
@@ -296,9 +296,9 @@ def stack_worker(spec):
                 k, a, b = int(p[1]), int(p[2]), int(p[3]); d = inputs[k]
                 C['evaluations'] += 1; C['fixed_stack_parses'] += 1
                 out['distinct'].append(common.sha(g.key(), d)[:12])
-                if a != b:
+                if a != b and not spec.get('safety_only'):
                     keys = ['input:' + common.sha(g.key(), d)[:16]] + ([STACK_SITE] if threw and 'capacity' in threw and stack_finding_applies(g, tb, d) else [])
-                    out['viol'].append((keys, 'grammar %s input %r (%d bytes): parse through cstring_buffer gives %d (%s), through string_buffer %d' % (g.text(), d, len(d), a, threw, b), {'grammar': g.to_json(), 'input': d.hex()}))
+                    out['viol'].append((keys, 'grammar %s input %r (%d bytes): parse through cstring_buffer gives %d (%s), through string_buffer %d' % (g.text(), d if len(d) <= 80 else d[:40] + b'...', len(d), a, threw, b), {'grammar': g.to_json(), 'input': d.hex()}))
                 threw = None
         out['samples'].append({'grammar': g.text(), 'inputs': [d.decode('latin-1') for d in inputs[:4]]})
     except common.BuildError as e:
